@@ -556,6 +556,14 @@ class Interp:
             # generator body PEP 479 would turn it into a RuntimeError)
             e = StopIteration('injected')
             self.probes['stop_iteration_escapes_a_frame'] += 1
+        elif len(op) > 1 and op[1] in ('group', 'group_sw'):
+            # several failures reported at once: an exception group is an
+            # ordinary exception, whatever its leaves are
+            leaf = self.desper.Quit() if op[1] == 'group' else \
+                self.desper.SwitchWorld(self.handles[0])
+            e = ExceptionGroup('injected', [leaf, ValueError('other')]
+                               if self.frame % 2 else [leaf])
+            self.probes['exception_group_with_loop_control_leaf'] += 1
         self.crash_obj = e
         self.probes['boom_from.' + self.requester_kind()] += 1
         raise e
@@ -1071,7 +1079,8 @@ def gen_script(prop, rng, cfg, key, state):
 
 
 TERMINATORS = [['quit'], ['quit_loop', 'none'], ['quit_loop', 'cur'],
-               ['boom'], ['crash'], ['boom', 'stop']]
+               ['boom'], ['crash'], ['boom', 'stop'], ['boom', 'group'],
+               ['boom', 'group_sw']]
 
 
 def generate(prop, run_seed, tier='quick', tolerate=frozenset()):
@@ -1104,7 +1113,9 @@ def generate(prop, run_seed, tier='quick', tolerate=frozenset()):
             break
         key = acts[min(len(acts) - 1, int(rng.expovariate(1 / 4)))]
         sc['scripts'][key] = gen_script(prop, rng, cfg, key, state)
-        after = frame_of(key)
+        # (callbacks run by the clock's script carry the number of the
+        # frame that has just ended)
+        after = frame_of(key) - (1 if key.endswith(':clock') else 0)
     out = [sc]
     if prop != 'C14':
         return out
